@@ -218,6 +218,9 @@ class EnsembleSampler(MarkovChain):
             The total number of samples generated is therefore ``iterations`` times
             the number of walkers.
         """
+        if iterations < 1:
+            return
+
         t_start = time()
         self.ProgressPrinter.iterations_initial(iterations)
 
